@@ -306,6 +306,23 @@ pub fn facts<'a>(cx: &'a Cx) -> BTreeMap<u32, AF<'a>> {
             }
         }
     }
+    // a child handle that travelled inside a message which was never handled (queued behind a stop, cancelled with its
+    // parent) never reached a child list: it was destroyed with the message, no later than the parent's mailbox
+    for e in ix.ev {
+        let K::Ref { tag: ctag, c, delta: 1, .. } = &e.k else { continue };
+        if *c < 1000 {
+            continue;
+        }
+        let cl = *c - 1000;
+        let Some(o) = ix.ops.iter().find(|o| o.c == cl && o.b < e.stamp && o.e.map(|x| x > e.stamp).unwrap_or(true) && matches!(o.op, OpK::Send | OpK::Call)) else { continue };
+        if ix.inv_of.get(&o.msg).map(|v| !v.is_empty()).unwrap_or(false) {
+            continue;
+        }
+        if let Some(at) = out.values().find(|p| p.tag == o.tag).and_then(|p| p.task_end.map(|t| t.0)) {
+            let r = release.entry(*ctag).or_insert(at);
+            *r = (*r).min(at);
+        }
+    }
     for af in out.values_mut() {
         af.parent_release = release.get(&af.tag).copied();
     }
